@@ -253,6 +253,20 @@ def step (s : Sys) (line : String) : IO Sys := do
     let w0 := World.init (cap.toNat?.getD 1024) (rel.toNat?.getD 128) s.w.maxComps
     let w1 := s.w.kinds.foldl (fun (w : World) k => (registerComponent k w).state) w0
     emitResult { s with w := w1, labels := [], epoch := [], oldLabels := [], queries := [], qFilter := [] } "ok"
+  | ["rebuild", cap, rel, "rot"] =>
+    -- as `rebuild`, but the types are registered in rotated order (the first one last): every component
+    -- gets another ID; the observer objects survive, un-registered, with their components renamed
+    let K := s.w.kinds.length
+    let f := fun (i : Nat) => if K ≤ 1 then i else (i + K - 1) % K
+    let kinds' := if K ≤ 1 then s.w.kinds else s.w.kinds.drop 1 ++ s.w.kinds.take 1
+    let w0 := World.init (cap.toNat?.getD 1024) (rel.toNat?.getD 128) s.w.maxComps
+    let w1 := kinds'.foldl (fun (w : World) k => (registerComponent k w).state) w0
+    let objs' : AL ObsObj := s.w.obs.objs.map fun (l, o) =>
+      (l, { spec := { o.spec with comps := o.spec.comps.map f, with_ := o.spec.with_.map f,
+                                  without := o.spec.without.map f } })
+    let w1 := { w1 with obs := { w1.obs with objs := objs' } }
+    emitResult { s with w := w1, comps := s.comps.map (fun (n, i) => (n, f i)), labels := [], epoch := [],
+                        oldLabels := [], queries := [], qFilter := [] } "ok"
   | ["reg", name, kind, size] =>
     match numOf name with
     | none => skip
